@@ -51,6 +51,16 @@ pub fn gen_cfg(r: &mut Rng, setup: &Setup) -> Cfg {
     if r.chance(1, 6) {
         c.visualize = true;
     }
+    // command-line flags overriding what the file says (flag > file > default)
+    if setup.entry == Entry::Cli && setup.conf != ConfSrc::Flags {
+        if r.chance(1, 6) {
+            c.file_mode = Some(if c.mode == "zod" { "none".into() } else { "zod".into() });
+        }
+        if !c.visualize && r.chance(1, 10) {
+            c.visualize = true;
+            c.flag_visualize = true;
+        }
+    }
     if setup.conf == ConfSrc::Standalone {
         if r.chance(1, 4) {
             c.param_case = Some(r.pick(crate::model::RENAME_RULES).to_string());
